@@ -48,6 +48,10 @@ pub struct Sc {
 pub struct TwinPattern {
     pub pattern: String,
     pub clone_mode: u8,
+    /// the second pattern is compiled before the one under test (and is alive while
+    /// that one is compiled) instead of after it
+    #[serde(default)]
+    pub first: bool,
 }
 
 pub struct C06;
@@ -77,6 +81,9 @@ const VERSIONS: [&str; 112] = [
     "1.0rc1", "1.0rc", "1.0pl1", "1.0pl", "1.0a", "1.0b", "1.0A", "1a", "2.0", "2", "0.9", "0", "3", "3.0", "10.0",
     "1.10", "1.9", "1.0_1", "1_0", "1.0.", "", "1..0", "01.0", "1.0.0.0.1", "2.0beta4nb7", "20240101", "1.0+x", "1.0~",
 ];
+
+/// patterns that do not compile
+const REJECTED: [&str; 10] = ["{foo,bar-[0-9]*", "foo-{1,2", "{{a,b}-1.0", "foo{", "{", "{a,{b,c}", "foo}-1.0", "foo>=1.0<", "foo-[0-9*", "{foo,bar}}-1.0"];
 
 fn gen_pattern(rng: &mut Rng) -> String {
     let v1 = *rng.pick(&VERSIONS);
@@ -550,6 +557,14 @@ fn reference(pat: &Pattern, names: &[&str]) -> Result<Option<String>, String> {
     Ok(Some(maximal[0].to_string()))
 }
 
+fn flip_first_letter(s: &str) -> String {
+    let mut c: Vec<char> = s.chars().collect();
+    if let Some(i) = c.iter().position(|ch| ch.is_ascii_alphabetic()) {
+        c[i] = if c[i].is_ascii_lowercase() { c[i].to_ascii_uppercase() } else { c[i].to_ascii_lowercase() };
+    }
+    c.into_iter().collect()
+}
+
 /// One pairwise reduction step with its invariants.
 fn merge_step(
     pat: &Pattern,
@@ -562,7 +577,10 @@ fn merge_step(
     // the other live pattern is asked first (its answers are judged by the same model)
     let twin_verdict: Option<Violation> = TWIN.with(|t| {
         if let Some(tp) = t.borrow().as_ref() {
-            for n in [a, b] {
+            // (also about the candidates with the case of their first letter flipped: a
+            // second pattern that differs from the first only in case has names of its own)
+            let (fa, fb) = (flip_first_letter(a), flip_first_letter(b));
+            for n in [a, b, fa.as_str(), fb.as_str()] {
                 let m = tp.matches(n);
                 if let Some(want) = model_matches(tp.pattern(), n) {
                     if m != want {
@@ -840,7 +858,10 @@ impl Property for C06 {
             });
         }
         let twin = if rng.chance(1, 3) {
-            let tp = match rng.below(3) {
+            let tp = match rng.below(4) {
+                // a pattern that is rejected (an opening brace never closed, a surplus closing
+                // one, a bad bound): a failed compilation is a neighbour call like any other
+                3 => rng.pick_str(&REJECTED).to_string(),
                 // the same pattern with the case of its first letter flipped: another pattern
                 0 => {
                     let mut c: Vec<char> = pattern.chars().collect();
@@ -856,10 +877,17 @@ impl Property for C06 {
             Some(TwinPattern {
                 pattern: tp,
                 clone_mode: rng.below(4) as u8,
+                first: rng.chance(1, 3),
             })
         } else {
             None
         };
+        // a run with a rejected neighbour pattern gets a thread of its own more often: what
+        // a failed compilation leaves behind on a long-lived worker would make later
+        // patterns uncompilable there (nothing to reduce), and hide itself
+        if twin.as_ref().map_or(false, |t| REJECTED.contains(&t.pattern.as_str())) && rng.chance(3, 4) {
+            fresh_thread = true;
+        }
         Sc {
             pattern,
             replicas,
@@ -974,6 +1002,10 @@ impl Property for C06 {
 
 /// One run (on the worker's thread or on a thread of its own, see `Sc::fresh_thread`).
 fn execute_run(sc: &Sc, ctx: &mut Ctx) -> Outcome {
+    let early_twin: Option<Pattern> = match &sc.twin {
+        Some(t) if t.first => Pattern::new(&t.pattern).ok(),
+        _ => None,
+    };
     let pat = match Pattern::new(&sc.pattern) {
         Ok(p) => p,
         Err(_) => return Ok(()), // not a valid pattern: nothing to reduce
@@ -997,7 +1029,11 @@ fn execute_run(sc: &Sc, ctx: &mut Ctx) -> Outcome {
         _ => pat,
     };
     // compiled after the clone / drop above, alive until the end of the run
-    let twin_pat: Option<Pattern> = sc.twin.as_ref().and_then(|t| Pattern::new(&t.pattern).ok());
+    let twin_pat: Option<Pattern> = match &sc.twin {
+        Some(t) if t.first => early_twin,
+        Some(t) => Pattern::new(&t.pattern).ok(),
+        None => None,
+    };
     if twin_pat.is_some() {
         ctx.fault("interleaved_objects");
     }
